@@ -699,4 +699,56 @@ def run(tier, replay=None):
                 cli_case(chk, rc, tmp, "c%d" % i, ARGS, CP, LocusPrior, SNP, FORMAT, classes, run_pederr)
     finally:
         shutil.rmtree(tmp, ignore_errors=True)
+    fit_hands_over_parameters(chk, C.rng(PROP + ":fit"), {"warm": 2, "quick": 25, "thorough": 250}[tier])
     return chk.finish()
+
+
+def fit_hands_over_parameters(chk, r, n):
+    """the inheritance model the sampler runs with is the one given: PedigreeCallingMCMC.fit hands tau / lambda / error (exact zeros and
+    ones included - with error 0 an invalid trio has probability exactly 0) and the parent table to `mcmc_sampler` unchanged"""
+    import inspect
+    from mchap.pedigree import classes as pcls
+    gm = pcls.PedigreeCallingMCMC.fit.__globals__
+    orig = gm["mcmc_sampler"]
+    sig = inspect.signature(orig.py_func)
+    for it in range(n):
+        N = r.randint(2, 5)
+        ploidy = np.array([r.choice([2, 4]) for _ in range(N)], dtype=np.int64)
+        parents = np.full((N, 2), -1, dtype=np.int64)
+        for i in range(1, N):
+            for j in range(2):
+                if r.random() < 0.7:
+                    parents[i, j] = r.randrange(i)
+        tau = np.array([[p // 2, p - p // 2] for p in ploidy], dtype=np.int64)
+        lam = np.array([[r.choice([0.0, 0.1, 0.25]) if tau[i, j] == 2 else 0.0 for j in range(2)] for i in range(N)])
+        err = np.array([[r.choice([0.0, 0.0, 1e-12, 1e-6, 0.01, 0.5, 1.0]) for _ in range(2)] for _ in range(N)])
+        n_h, nb = r.randint(2, 4), 2
+        haps = np.array([[(h >> b) & 1 for b in range(nb)] for h in range(n_h)], dtype=np.int8)
+        mp = int(ploidy.max())
+        reads = np.full((N, 2, nb, 2), np.nan); counts = np.zeros((N, 2), dtype=np.int64)
+        init = np.full((N, mp), -1, dtype=np.int16)
+        for i in range(N):
+            init[i, :ploidy[i]] = sorted(r.randrange(n_h) for _ in range(ploidy[i]))
+        calls = []
+
+        def rec(*a, **kw):
+            d = dict(sig.bind(*a, **kw).arguments)
+            calls.append(d)
+            return np.zeros((int(d["n_steps"]), N, mp), dtype=np.int16)
+        gm["mcmc_sampler"] = rec
+        try:
+            model = pcls.PedigreeCallingMCMC(sample_ploidy=ploidy, sample_inbreeding=np.zeros(N), sample_parents=parents, gamete_tau=tau,
+                                             gamete_lambda=lam, gamete_error=err, haplotypes=haps, steps=4, annealing=1, chains=2, random_seed=1)
+            model.fit(reads, counts, initial=init)
+        finally:
+            gm["mcmc_sampler"] = orig
+        chk.count("fit-parameters"); chk.count("fit-parameters:error-with-exact-zero" if (err == 0).any() else "fit-parameters:error-positive")
+        chk.case(("fit-parameters", it), bool((err == 0).any()))
+        for d in calls:
+            for name, v in (("gamete_error", err), ("gamete_lambda", lam), ("gamete_tau", tau), ("sample_parents", parents), ("sample_ploidy", ploidy)):
+                w = d.get(name)
+                if w is None or np.shape(w) != np.shape(v) or not np.array_equal(np.asarray(w), np.asarray(v)):
+                    chk.violation(f"PedigreeCallingMCMC.fit runs the sampler with a {name} that is not the one it was given",
+                                  {"given": np.asarray(v).tolist(), "handed_to_the_sampler": None if w is None else np.asarray(w).tolist()},
+                                  "C17/fit/parameters")
+                    break
